@@ -36,6 +36,7 @@ type Ev struct {
 	Err     error         `json:"-"`
 	Opt     bool          `json:"opt,omitempty"`     // may be absent (fast operator's second leaf / final and-or fold)
 	Builtin bool          `json:"builtin,omitempty"` // application of a built-in operator (only in Apps)
+	Fast    bool          `json:"fast,omitempty"`    // applied on the fast (two-leaf) path
 }
 
 func (e Ev) String() string {
@@ -112,10 +113,11 @@ func (e *Env) get(name string, opt bool) (interface{}, error) {
 	return v, nil
 }
 
-func (e *Env) apply(op string, args []interface{}, optional bool) (interface{}, error) {
+func (e *Env) apply(op string, args []interface{}, optional bool, fast ...bool) (interface{}, error) {
+	isFast := len(fast) > 0 && fast[0]
 	if f, ok := Builtin(op); ok {
 		r, err := f(args)
-		e.Apps = append(e.Apps, Ev{Op: op, Args: append([]interface{}(nil), args...), Res: r, Err: err, Builtin: true, Opt: optional})
+		e.Apps = append(e.Apps, Ev{Op: op, Args: append([]interface{}(nil), args...), Res: r, Err: err, Builtin: true, Opt: optional, Fast: isFast})
 		return r, err
 	}
 	f, ok := e.Custom[op]
@@ -130,6 +132,7 @@ func (e *Env) apply(op string, args []interface{}, optional bool) (interface{}, 
 	e.Calls[op]++
 	ev := Ev{Op: op, Args: cp, Res: r, Err: err}
 	e.Trace = append(e.Trace, ev)
+	ev.Fast = isFast
 	e.Apps = append(e.Apps, ev)
 	return r, err
 }
@@ -184,7 +187,7 @@ func (e *Env) Eval(n *Node) (interface{}, error) {
 				}
 			}
 		}
-		return e.apply(n.Name, args, false)
+		return e.apply(n.Name, args, false, true)
 	}
 	for i, k := range n.Kids {
 		v, err := e.Eval(k)
